@@ -19,6 +19,7 @@ A case is a slot setting and a list of ops, each preceded by a virtual delay:
                              these (status UNKNOWN = no such account); the server reports it (GetUserStatus) iff the
                              client currently has u on its watch list (AddUser sent, RemoveUser not)
     ['privList', [u..], dt]  the server sends the list of privileged users
+    dt = -1 (not for started / finish / failX / backToQueue): the op follows the previous one within the same loop step
     ['abortRace', k, dt]     abort(k) runs as its own task while, in the same step, a message about k's user (the truth once
                              more) requests a cycle: the cycle runs while abort waits for the task it cancelled
   optional case key 'net': {'reply_delay': d}   the server's answer to AddUser takes d s of virtual time (None: never
@@ -43,8 +44,11 @@ from vlib.common import KResult, Violation, Disagreement, Property
 STATUSES = ['UNKNOWN', 'OFFLINE', 'AWAY', 'ONLINE']
 STAGES = ['send-conn', 'send-write', 'conn', 'ticket', 'offset']
 TASK_OPS = ('started', 'finish', 'failX', 'backToQueue')
+API_OPS = ('abort', 'addUpload', 'requeue', 'apiQueue', 'setUser', 'setSlots')
 DOC_QUEUE_STATES = ('ABORTED', 'PAUSED', 'COMPLETE', 'INCOMPLETE', 'FAILED')
 PROCESSING = ('INITIALIZING', 'UPLOADING', 'DOWNLOADING')
+SAME_STEP = -1         # delay value: the op follows the previous one in the same loop step (two events dispatched in one
+                       # iteration: no task, not even the first step of a task the previous op created, runs in between)
 
 
 # --------------------------------------------------------------------------------------------
@@ -197,7 +201,8 @@ def _run_impl(case: dict) -> dict:
         await simloop.settle()
         marks = []            # per entry: (log index before, log index after, snapshot)
         mark = 0
-        for i, op in enumerate(case['ops']):
+        ops = case['ops']
+        for i, op in enumerate(ops):
             *body, dt = op
             if dt > 0:
                 await asyncio.sleep(dt)          # no settle: the op may land inside the iteration of a cycle
@@ -208,6 +213,8 @@ def _run_impl(case: dict) -> dict:
             else:
                 res = await _perform(rig, body)
                 rig.log.append(('op', i, res))
+            if i + 1 < len(ops) and ops[i + 1][-1] == SAME_STEP and ops[i + 1][0] not in TASK_OPS:
+                continue                         # the next op follows in the same loop step: nothing else runs in between
             await simloop.settle()
             marks.append((mark, len(rig.log), _snap(rig)))
             mark = len(rig.log)
@@ -347,21 +354,33 @@ def _reference(log: list):
     """For every cycle of the log: what the property's ranking / offline clause is judged against — per user with a
     transfer `[status, friend, privileged]` where status / privileged are what the SERVER LAST REPORTED about the user
     (AddUser answer, GetUserStatus, privileged list) since the first cycle of the user's current run of cycles with an
-    unfinished transfer; at that first cycle: what the scheduler itself read (nothing is claimed about what a client
-    knows of a user it had no transfer to do for).  friend: the friend list at the cycle.  Yields (log index, users)."""
+    unfinished transfer.  At that first cycle nothing is claimed about what a client remembers of a user it had nothing
+    to do for: what the scheduler itself read is taken, as long as it is something the client can have (status: UNKNOWN
+    or the last status ever reported; privileged: per the last privileged list or the last report), else UNKNOWN /
+    the privileged list.  friend: the friend list at the cycle.  Yields (log index, users)."""
     ref: dict[str, list] = {}
+    last_status: dict[str, str] = {}
+    last_priv: dict[str, bool] = {}
+    plist: set = set()
     for idx, e in enumerate(log):
         tag = e[0]
         if tag == 'told':
             _, _kind, u, st, pr = e
+            if st is not None:
+                last_status[u] = st
+            if pr is not None:
+                last_priv[u] = bool(pr)
             if u in ref:
                 if st is not None:
                     ref[u][0] = st
                 if pr is not None:
                     ref[u][1] = bool(pr)
         elif tag == 'privlist':
+            plist = set(e[1])
+            for u in set(last_priv) | plist:
+                last_priv[u] = u in plist
             for u in ref:
-                ref[u][1] = u in e[1]
+                ref[u][1] = u in plist
         elif tag == 'cycle':
             info = e[2]
             seen = info['users']
@@ -371,7 +390,12 @@ def _reference(log: list):
                     del ref[u]
             for u in unf:
                 if u not in ref:
-                    ref[u] = [seen[u][0], bool(seen[u][2])]
+                    st, pr = seen[u][0], bool(seen[u][2])
+                    if st not in ('UNKNOWN', last_status.get(u)):
+                        st = 'UNKNOWN'
+                    if pr not in (u in plist, last_priv.get(u)):
+                        pr = u in plist
+                    ref[u] = [st, pr]
             yield idx, {u: ([ref[u][0], bool(seen[u][1]), ref[u][1]] if u in ref else list(seen[u])) for u in seen}
 
 
@@ -394,7 +418,8 @@ def _monitor(case: dict, impl: dict) -> list[Violation]:
         tag = e[0]
         if tag == 'add':
             _, k, u, d = e
-            state[k], user_of[k], is_up[k] = 'VIRGIN', u, d == 'U'
+            state.setdefault(k, 'VIRGIN')
+            user_of[k], is_up[k] = u, d == 'U'
             last_change_idx = idx
         elif tag == 'slots':
             slots = e[1]
@@ -423,6 +448,9 @@ def _monitor(case: dict, impl: dict) -> list[Violation]:
             last_cycle_idx = idx
             last_cycle = e
             decision_slots = info['slots']
+            for k, u, d, st in info['xs']:          # a transfer a decision sees before the schedule logged its arrival
+                if k not in user_of:
+                    user_of[k], is_up[k], state[k] = u, d == 'U', st
             sel = [k for kind, k in started if kind == 'T' and is_up.get(k, True)]
             xs = {k: (u, d, st) for k, u, d, st in info['xs']}
             seen = info['users']
@@ -671,8 +699,16 @@ def _gen_case(rng: random.Random, max_ops: int = 12) -> dict:
     kinds = list(weights)
     for _ in range(n):
         dt = rng.choice([0, 0, 0, 0.05, 0.05, 0.02, 0.1, 0.3])
-        m.tick(dt)
         kind = rng.choices(kinds, [weights[k] for k in kinds])[0]
+        if (kind not in TASK_OPS and kind not in ('wait', 'abortRace') and ops and ops[-1][0] in API_OPS
+                and rng.random() < 0.3):
+            # two events in one loop step: this one is dispatched before anything the previous one set off has run; with
+            # the management job idle (0.3 s since the last event) its cycle then runs right behind both
+            dt = SAME_STEP
+            if rng.random() < 0.6 and ops[-1][-1] != SAME_STEP:
+                m.tick(max(0.0, 0.3 - ops[-1][-1]))
+                ops[-1][-1] = 0.3
+        m.tick(max(dt, 0))
         if len(m.xs) < 2:
             kind = 'addUpload' if rng.random() < 0.8 else kind
         by_state = lambda *sts: [k for k, x in enumerate(m.xs) if x[1] == 'U' and x[2] in sts]
@@ -874,6 +910,8 @@ def _features(case: dict, impl: dict) -> set:
             feats.add('refused-op')
     if n_sel >= 2:
         feats.add('two-cycles-started-uploads')
+    if any(op[-1] == SAME_STEP for op in case['ops']):
+        feats.add('two-events-in-one-loop-step')
     racing = False
     for e in impl['log']:
         if e[0] == 'opline':
